@@ -16,7 +16,8 @@ Inductive justify := JLeft | JRight.
 Inductive comp :=
 | Lit (s : list char)
 | Flush
-| Dir (d : char) (width : option nat) (j : justify).
+| Dir (d : char) (width : option nat) (j : justify)
+| DirP (d : char) (width : option nat) (j : justify) (precision : nat).   (* "%.3p", "%10.5d" *)
 
 Definition is_octal (c : char) := (48 <=? c) && (c <=? 55).
 Definition is_digit (c : char) := (48 <=? c) && (c <=? 57).
@@ -96,6 +97,20 @@ Definition parse_spec (s : list char) : res (comp * list char) :=
       match width_of ds with
       | Err => Err
       | Ok w =>
+          (* a precision: "." and digits (none: 0); the conversion character has to follow *)
+          let pr := match s2 with
+                    | c :: s2' => if c =? 46 then let '(ps, s2'') := take_digits s2' [] in
+                                                  match width_of ps with
+                                                  | Err => Err
+                                                  | Ok p => Ok (Some (match p with Some n => n | None => 0 end), s2'')
+                                                  end
+                                  else Ok (None, s2)
+                    | [] => Ok (None, s2)
+                    end in
+          match pr with
+          | Err => Err
+          | Ok (prec, s2) =>
+          let mk d := match prec with None => Dir d w j | Some p => DirP d w j p end in
           match s2 with
           | [] => Err
           | first :: s3 =>
@@ -103,13 +118,14 @@ Definition parse_spec (s : list char) : res (comp * list char) :=
               else if is_time_directive first then
                 match s3 with
                 | [] => Err
-                | c :: s4 => if (c =? 64) || (c =? 83) || strftime_ok c then Ok (Dir first w j, s4) else Err
+                | c :: s4 => if (c =? 64) || (c =? 83) || strftime_ok c then Ok (mk first, s4) else Err
                 end
               else match assoc first printf_directives with
-                   | Some _ => Ok (Dir first w j, s3)
+                   | Some _ => Ok (mk first, s3)
                    | None => if (first =? 123) || (first =? 91) || (first =? 40) then Err      (* %{ %[ %( : reserved *)
                              else Ok (Lit [first], s3)
                    end
+          end
           end
       end
   end.
@@ -143,12 +159,19 @@ Definition pad (w : option nat) (j : justify) (v : list char) : list char :=
   | Some w => let fill := repeat 32 (w - length v) in
               match j with JLeft => v ++ fill | JRight => fill ++ v end
   end.
+(* a precision, as C's printf has it: at least that many digits for the numbers (%d, %m; none at all for 0 under ".0"), at most
+   that many characters for everything else *)
+Definition with_precision (d : char) (p : nat) (v : list char) : list char :=
+  if (d =? 100) || (d =? 109) then
+    (if (p =? 0) && (match v with [48] => true | _ => false end) then [] else repeat 48 (p - length v) ++ v)
+  else firstn p v.
 Fixpoint render (value : char -> list char) (cs : list comp) : list char :=
   match cs with
   | [] => []
   | Lit s :: r => s ++ render value r
   | Flush :: _ => []                      (* \c: nothing more is printed for this file *)
   | Dir d w j :: r => pad w j (value d) ++ render value r
+  | DirP d w j p :: r => pad w j (with_precision d p (value d)) ++ render value r
   end.
 Definition run_printf (strftime_ok : char -> bool) (value : char -> list char) (fmt : list char) : res (list char) :=
   match parse strftime_ok (S (length fmt)) fmt with
